@@ -779,13 +779,20 @@ func caMarshalTok(t *Toks, p *rtp.Packet) {
 // c20ViaWire makes the next observeC20 call build the original by decoding its own wire image
 // (every slice of such a packet is a window into ONE receive buffer — the usual situation when a
 // received packet is cloned).  Only used for well-formed descriptions.
-func caRebuildViaWire(orig *rtp.Packet) *rtp.Packet {
+func caRebuildViaWire(orig *rtp.Packet, caReusedReceiver bool) *rtp.Packet {
 	var wire []byte
 	var err error
 	if try(func() { wire, err = orig.Marshal() }) || err != nil {
 		return nil
 	}
 	q := &rtp.Packet{}
+	if caReusedReceiver {
+		// a REUSED receiver: it decoded a packet with 3 CSRCs and 2 extension elements before, so
+		// after decoding `wire` its CSRC / Extensions slices may be empty but keep spare capacity
+		// (h.Extensions[:0]) — memory a shallow Clone would share with the original.
+		_ = q.Unmarshal([]byte{0x93, 0x60, 0, 1, 0, 0, 0, 2, 0, 0, 0, 3, 0, 0, 0, 4, 0, 0, 0, 5, 0, 0, 0, 6,
+			0xBE, 0xDE, 0, 2, 0x10, 0xAA, 0x21, 0xBB, 0xCC, 0, 0, 0, 9})
+	}
 	if try(func() { err = q.Unmarshal(wire) }) || err != nil {
 		return nil
 	}
@@ -802,9 +809,13 @@ func observeC20(c *Case, in *PacketIn, extsNil bool, m c20Mut, onClone bool) {
 func observeC20x(c *Case, in *PacketIn, extsNil bool, m c20Mut, onClone, viaWire bool) {
 	orig := buildC20(in, extsNil)
 	if viaWire {
-		if q := caRebuildViaWire(orig); q != nil {
+		reused := c.R.Bool()
+		if q := caRebuildViaWire(orig, reused); q != nil {
 			orig = q
 			c.Tag("built=unmarshal")
+			if reused {
+				c.Tag("built=unmarshal-into-reused-receiver")
+			}
 		}
 	}
 	orig.Header.PayloadOffset = c.R.Pick(0, 12, 16, c.R.Intn(2000)) // deprecated, but a header field: Clone must carry it
